@@ -2957,9 +2957,9 @@ pub fn infer_root(
         module_info,
     );
     ctx.infer_root_id = call_id;
-    let _t = ctx
-        .infer_type(e)
-        .unwrap_or(Type::Failure.into_id_with_location(e.to_location()));
+    // An error that propagated up to the root is recorded like any other one,
+    // so that callers looking at `ctx.errors` never take a failed inference for a success.
+    let _t = ctx.infer_type_unwrapping(e);
     ctx.substitute_all_intermediates();
     ctx.check_all_match_exhaustiveness();
     ctx
